@@ -3,9 +3,10 @@
   `VDUP RK.S[0], RK.S2 / RK.S4`, `subRoundX4` — 32 SM4 rounds on every word element that carries the round key
   (elements 0,1 for X2; 0..3 for X4), and the fact that the 800 middle instructions of the two regenerated listings
   are exactly these rounds.  Arm64 value semantics: UNVALIDATED transcription of the Arm ARM.
-  NOT covered here: the prologue / epilogue of X2 and X4 (element loads / LD4 de-interleave, REV32, the register
-  swaps, element stores / ST4) and the whole of X8 / X16Internal, whose round blocks (`subRoundX8`, `subRoundX16`,
-  interleaved look-ups, state stashed in memory) are different code: tests only (ISAValArm64Tests.lean).
+  The prologue / epilogue of X2 and X4 and the complete theorems are in ISAValArm64X2.lean / ISAValArm64X4*.lean;
+  `cryptoBlockAsmX8` (different round macro `subRoundX8`) in ISAValArm64X8*.lean.  `cryptoBlockAsmX16Internal`
+  (`subRoundX16`: state stashed in the 256-byte `tmp` buffer and reloaded several times per round) is NOT proved in
+  general: tests only (ISAValArm64Tests.lean).
 -/
 import SMGo.Proofs.ISAValArm64X1
 namespace SMGo.Proofs.ISAValArm64
